@@ -169,7 +169,14 @@ func runRule(c *Ctx, r *Rule) (obls []Obl) {
 			obls[i].Rule = r.ID
 		}
 	}
-	if n := countObl(obls); n < r.Floor {
+	hasViolation := false
+	for _, o := range obls {
+		if o.Status == Violation {
+			hasViolation = true
+		}
+	}
+	// the floor guards against passing vacuously; a rule that already reports a violation needs no second alarm
+	if n := countObl(obls); n < r.Floor && !hasViolation {
 		obls = append(obls, Obl{Rule: r.ID, Key: "instance-floor", Pos: "-", Status: Undecided,
 			Msg: fmt.Sprintf("rule matched %d instances, fewer than the %d confirmed by hand on the pinned tree: the anchors were renamed or an idiom is no longer recognised; the rule cannot vouch for the property", n, r.Floor)})
 	}
@@ -243,7 +250,7 @@ func cmdCheck(prop string) int {
 	}
 	var selftest map[string]interface{}
 	if tier == "thorough" && len(c.LoadErr) == 0 {
-		selftest = runSelftests(p)
+		selftest = runSelftests(p, prop, all)
 	}
 	sortObls(all)
 
